@@ -43,7 +43,33 @@ def env_for(cname: str) -> Dict[str, Any]:
     return {**common, "logarithm": None, "reference": None}
 
 
-def replay(cname: str, threads: int, schedule: List[int], trace: List[Tuple]) -> str:
+def table_setdefault(cls: Any) -> Tuple[bool, List[int]]:
+    """Is the intern table's setdefault one atomic step?  For a builtin dict: yes (a single C call
+    with no Python code between look-up and insertion).  For any other table whose setdefault is a
+    Python function: no -- it is modelled as look-up, then store, and the lines of that function
+    which store into a subscript are the preemption point the replay stops at."""
+    import ast
+    import inspect
+    import textwrap
+
+    tbl = cls._known
+    if type(tbl) is dict:
+        return True, []
+    fn = getattr(type(tbl), "setdefault", None)
+    if not isinstance(fn, types.FunctionType):
+        raise symnum.HarnessError(f"{cls.__name__}._known is a {type(tbl).__name__}: setdefault is neither "
+                                  f"dict's nor a Python function; no model")
+    tree = ast.parse(textwrap.dedent(inspect.getsource(fn)))
+    first = fn.__code__.co_firstlineno
+    lines = [n.lineno + first - 1 for n in ast.walk(tree) if isinstance(n, ast.Assign)
+             and any(isinstance(t, ast.Subscript) for t in n.targets)]
+    if not lines:
+        raise symnum.HarnessError(f"no store found in {type(tbl).__name__}.setdefault")
+    return False, lines
+
+
+def replay(cname: str, threads: int, schedule: List[int], trace: List[Tuple],
+           store_lines: List[int] = ()) -> str:
     setup, expr, clsc = SETUP[cname]
     tr = "\n".join(f"#   thread {k}  line {ln}  {act:14s} {src}" for k, ln, act, src in trace)
     return families.REPLAY_IMPORTS + f"""import threading, queue
@@ -52,6 +78,12 @@ def replay(cname: str, threads: int, schedule: List[int], trace: List[Tuple]) ->
 {setup}
 cls = {clsc}
 codes = {{cls.__new__.__code__, cls.__init__.__code__}}
+# a table that is not a builtin dict: also stop before the store inside its Python-level setdefault
+STORE_LINES = {list(store_lines)!r}
+sd = getattr(type(cls._known), 'setdefault', None)
+sd_code = getattr(sd, '__code__', None) if STORE_LINES else None
+if sd_code is not None:
+    codes.add(sd_code)
 SCHEDULE = {schedule!r}
 N = {threads}
 go = [threading.Semaphore(0) for _ in range(N)]
@@ -61,6 +93,8 @@ free_run = threading.Event()
 def tracer_for(k):
     def local(frame, event, arg):
         if event == 'line' and not free_run.is_set():
+            if frame.f_code is sd_code and frame.f_lineno not in STORE_LINES:
+                return local
             events[k].put('line')
             go[k].acquire()
         return local
@@ -105,13 +139,16 @@ def worker(task: Tuple) -> Dict[str, Any]:
     import measured.systems  # noqa
 
     cls = getattr(measured, cname)
-    steps = stepbmc.extract(cls, "_known", env_for(cname))
+    atomic, store_lines = table_setdefault(cls)
+    steps = stepbmc.extract(cls, "_known", env_for(cname), atomic_setdefault=atomic)
     res = stepbmc.search(steps, threads, timeout_ms=120000)
     res["class"] = cname
+    res["table_type"] = type(cls._known).__name__
+    res["setdefault_atomic"] = atomic
     res["program"] = [repr(s) for s in steps]
     if res["result"] == "sat":
         res["replay"] = replay(cname, threads, res["schedule"],
-                               [t for t in res["trace"] if t[2] != "LOCK_REL"])
+                               [t for t in res["trace"] if t[2] != "LOCK_REL"], store_lines)
         res["schedule"] = [k for k, _, act, _ in res["trace"] if act != "LOCK_REL"]
     return res
 
